@@ -147,6 +147,11 @@ func ruleHiddenSubtrees(c *core.Ctx, rule string) {
 				if state[core.CellRoot(ld.X)] {
 					res = true
 				}
+				for _, o := range core.Origins(ld) {
+					if state[o] {
+						res = true
+					}
+				}
 			})
 		}
 		readsState[f] = res
@@ -243,6 +248,29 @@ func ruleHiddenSubtrees(c *core.Ctx, rule string) {
 		}
 		return false
 	}
+	isExam := func(in ssa.Instruction) (string, bool) {
+		cl, ok := in.(*ssa.Call)
+		if !ok {
+			return "", false
+		}
+		if cl.Call.IsInvoke() {
+			m := cl.Call.Method.Name()
+			if (m == "GetReader" || m == "GetReadSeeker") && strings.HasSuffix(core.TypeName(cl.Call.Value.Type()), "lake.Pool") {
+				return "lake.Pool." + m, true
+			}
+			return "", false
+		}
+		switch n := core.CalleeName(cl); n {
+		case "os.Lstat", "os.Stat", "os.Readlink", "os.Open", "github.com/itchio/screw.Lstat", "github.com/itchio/screw.Stat", "github.com/itchio/screw.Readlink", "github.com/itchio/screw.Open":
+			// of an entry of the build, not of the target itself
+			for _, a := range cl.Call.Args {
+				if dependsOnEntryPath(a, 0, map[ssa.Value]bool{}) {
+					return n, true
+				}
+			}
+		}
+		return "", false
+	}
 	// every DIR wound made because of what was found at the path records it; the ones made because a
 	// directory above is already on record need not
 	nl := 0
@@ -281,36 +309,35 @@ func ruleHiddenSubtrees(c *core.Ctx, rule string) {
 				}
 			}
 		}
-		already := hasGuard(wl.alloc, func(g core.Guard) bool { return dep(g.Cond, 0, map[ssa.Value]bool{}) })
-		c.Check(writes || already, rule, vname, "DIR wound #"+ordinalOf(wl.fn, wl.alloc, func(in ssa.Instruction) bool {
+		// made without looking at the path (because of the record itself): no examination comes before it
+		already := true
+		core.Instrs(wl.fn, func(in ssa.Instruction) {
+			if _, isEx := isExam(in); isEx && core.InstrDominates(in, wl.alloc) {
+				already = false
+			}
+		})
+		already = already && hasGuard(wl.alloc, func(g core.Guard) bool { return dep(g.Cond, 0, map[ssa.Value]bool{}) })
+		// nothing at the path at all (the examination failed): what is below it cannot be found either,
+		// a record is not needed
+		failed := hasGuard(wl.alloc, func(g core.Guard) bool {
+			bo, ok := g.Cond.(*ssa.BinOp)
+			if !ok || (bo.Op != token.NEQ && bo.Op != token.EQL) || (bo.Op == token.NEQ) != g.Val {
+				return false
+			}
+			var other ssa.Value
+			if core.IsNilConst(bo.Y) {
+				other = bo.X
+			} else if core.IsNilConst(bo.X) {
+				other = bo.Y
+			}
+			return other != nil && isErrorType(other.Type())
+		})
+		c.Check(writes || already || failed, rule, vname, "DIR wound #"+ordinalOf(wl.fn, wl.alloc, func(in ssa.Instruction) bool {
 			a, ok := in.(*ssa.Alloc)
 			return ok && core.TypeName(a.Type()) == "pwr.Wound" && (a.Comment == "complit" || a.Comment == "new")
 		})+" leaves a record", wl.alloc.Pos(),
 			"the branch that makes this wound writes the broken-directory record (or was taken because of it)",
 			"this way of finding a directory broken is not recorded: the entries below it are still examined through whatever stands in its place")
-	}
-	isExam := func(in ssa.Instruction) (string, bool) {
-		cl, ok := in.(*ssa.Call)
-		if !ok {
-			return "", false
-		}
-		if cl.Call.IsInvoke() {
-			m := cl.Call.Method.Name()
-			if (m == "GetReader" || m == "GetReadSeeker") && strings.HasSuffix(core.TypeName(cl.Call.Value.Type()), "lake.Pool") {
-				return "lake.Pool." + m, true
-			}
-			return "", false
-		}
-		switch n := core.CalleeName(cl); n {
-		case "os.Lstat", "os.Stat", "os.Readlink", "os.Open", "github.com/itchio/screw.Lstat", "github.com/itchio/screw.Stat", "github.com/itchio/screw.Readlink", "github.com/itchio/screw.Open":
-			// of an entry of the build, not of the target itself
-			for _, a := range cl.Call.Args {
-				if dependsOnEntryPath(a, 0, map[ssa.Value]bool{}) {
-					return n, true
-				}
-			}
-		}
-		return "", false
 	}
 	nSites := 0
 	for _, top := range []*ssa.Function{V, W} {
